@@ -141,7 +141,7 @@ ADDED = {
     "C08": "The same chart-data object re-used after it was extended (replace_data and a second add_chart); corpus charts shrunk to one series. Time-zone-aware datetime categories.",
     "C09": "Driver toggles: a kept ancestor whose content is switched off and on (has_data_labels / has_title / has_legend / gridlines; fill.background() for colours) and the child re-accessed from it; None and inf/nan are out of domain for non-boolean properties; identical assignments repeated in sequences; a legend dragged in PowerPoint (edge-mode manual layout) as a fixture. Brightness on a colour that holds its luminance transforms twice. Toggles: the switch re-assigned the value it has must leave the child's properties alone. Rows for the marker and the line of a single point.",
     "C10": "Online half: 8 / 32 shards of histories in profile sat (targets saturated with minimal or randomly filled-in valid instances, choice members swapped) judged by M-INS (misplaced / excluded-by-sibling / inserted-outside-parent) and by the validated result of every op (out-of-order-after-op, duplicate c:dPt / c:dLbl per c:idx); hand-written adders are called with arguments from a table; change-to and group removers from parents holding every other member of the group; the repository's tests under the monitors. Unit api_removers: the API calls documented to remove or replace (brightness, TextFrame.clear, _Paragraph.clear) on parents where the kind stands several times.",
-    "C11": "Own and foreign enumeration members in the grid of enumerated attributes; every rejected value repeated on an attribute that already holds a value and through every parent's generated adder; equivalent lexical forms (percent / thousandths, universal measure / EMU, true / 1) must read alike; the repository's tests under the monitors. Strings in Python's number syntax ('+12345', '0x1234', '1_2345'); unit api_lexical: what each C09 row's assignment wrote is re-spelt in an equivalent schema-valid form (5pt / 0.1in, 50%, true) and read through the API, whatever route the reader takes. Zero-padded numbers among the equivalent forms (index look-ups by XPath string comparison: genuine defect, repaired 2dac52a0).",
+    "C11": "Own and foreign enumeration members in the grid of enumerated attributes; every rejected value repeated on an attribute that already holds a value and through every parent's generated adder; equivalent lexical forms (percent / thousandths, universal measure / EMU, true / 1) must read alike; the repository's tests under the monitors. Strings in Python's number syntax ('+12345', '0x1234', '1_2345'); unit api_lexical: what each C09 row's assignment wrote is re-spelt in an equivalent schema-valid form (5pt / 0.1in, 50%, true) and read through the API, whatever route the reader takes. Zero-padded numbers among the equivalent forms (index look-ups by XPath string comparison: genuine defect, repaired cdb88002). Unit corpus_lexical: every corpus deck is traversed (C12's read-only traversal, all accessors) as it is and with its whole-number attributes zero-padded / booleans re-spelt; the readings must agree one by one.",
     "C12": "Generated pre-states: orphaned jump targets, cell-linked chart titles (guarded reads followed), notes master referred to by notes slides only, half transforms; after saving, prefixes named by markup-compatibility attributes must stay declared and external relationship targets must equal the input's. An external relationship of the deck opened must still be in the straight save; every history with intermediate saves begins with a save before anything was read; eight manufactured decks (irregular names / ids, blank links) are inputs; the part graph expands every route to a shared part and compares which routes share one. Background objects of slides, layouts and masters obtained; pre-state foreign_guides (guides the preset does not define).",
     "C13": "Manufactured decks (irregular slide names) as start decks, the saved zip checked for duplicate members and for the slides the deck already had; the layout gains a placeholder between two additions. Gapped relationship ids on the start decks. Step notes-old (notes for a slide the deck already had); the notes slides of the other slides and the saved slide ids are compared.",
     "C14": "Cells holding only a field or only a line break; readings through _Cell proxies obtained at an earlier state; the graphic frame resized directly before row / column sizes are set. Frame-size conservation and random operations also on tables made by insert_table().",
